@@ -320,6 +320,8 @@ def build_init(init):
     core = _core()
     k = init["kind"]
     if k == "columns":
+        if not init["columns"] and init.get("bare"):
+            return core.Table()
         return core.Table(columns=list(init["columns"]))
     data = {c: [to_py(x) for x in v] for c, v in init["data"]}
     if k == "coldict":
@@ -591,6 +593,16 @@ class Runner:
             return
         got = canon_rows(cols2, rows2)
         exp = canon_rows(allcols, expect)
+        # every row complete: all columns hold one cell per row (zip(*columns) in __iter__ would hide a longer column)
+        try:
+            lens = {c: len(t[c]) for c in cols2}
+            nrows = len(t)
+        except Exception as e:  # noqa
+            self.fail("op #%d: len(table) / table[column] raised after insert: %r" % (n, e), "insert:len-raised")
+            return
+        if cols2 and (len(set(lens.values())) > 1 or nrows != len(expect) or any(v != len(expect) for v in lens.values())):
+            self.fail("op #%d insert(%s): %d rows were expected; len(table) = %d, column lengths %s" % (n, sh, len(expect), nrows, lens), "insert:column-lengths")
+            return
         if r is not t:
             self.fail("op #%d insert did not return the table" % n, "insert:return")
         if got != exp or set(cols2) != set(allcols) or len(cols2) != len(allcols):
@@ -949,13 +961,18 @@ class Gen:
         r = self.r
         n = r.choice([0, 1, 1, 2, 3, 4, 6])
         sh = r.wchoice([(4, "rows"), (4, "dicts"), (2, "cols")])
+        if not cols:
+            sh = r.choice(["dicts", "cols"])      # a table without columns takes its columns from the first insert
+            n = r.choice([1, 2, 3, 4, 6])
         if sh == "rows":
             return {"op": "insert", "t": t, "shape": "rows", "rows": [self.row(cols) for _ in range(n)]}, cols
-        pool = list(COLS[:max(self.ncols, len(cols)) + (1 if r.chance(0.3) else 0)])
+        pool = list(COLS[:min(len(COLS), max(self.ncols, len(cols)) + r.wchoice([(6, 0), (3, 1), (2, 2), (1, 3)]))])
+        if not cols:
+            pool = list(COLS[:r.choice([1, 2, 2, 3, 4])])
         if sh == "dicts":
             ds = []
             for _ in range(n):
-                if r.chance(0.6):
+                if cols and r.chance(0.6):
                     ks = list(cols)
                 else:
                     ks = [c for c in pool if r.chance(0.6)]
@@ -963,7 +980,7 @@ class Gen:
                 ds.append([[c, self.cell(c)] for c in ks])
             new = sorted({c for d in ds for c, _ in d} - set(cols))
             return {"op": "insert", "t": t, "shape": "dicts", "rows": ds}, cols + new
-        ks = list(cols) if r.chance(0.6) else [c for c in pool if r.chance(0.6)]
+        ks = list(cols) if cols and r.chance(0.6) else [c for c in pool if r.chance(0.6 if cols else 0.85)]
         if r.chance(0.3):
             ks = r.shuffle(ks)
         cs = [[c, [self.cell(c) for _ in range(n)]] for c in ks]
@@ -1075,7 +1092,14 @@ class Gen:
             cols = r.shuffle(cols)
         n0 = r.choice([0, 1, 2, 3, 4, 5, 6, 7, 8, 10, 12, 12])
         x = r.below(10)
-        if x < 6:
+        if r.chance(0.1):
+            # a table created without columns (Table() / Table(columns=[])): the first insert brings them, several at once
+            init = {"kind": "columns", "columns": []}
+            if r.chance(0.5):
+                init["bare"] = True
+            op, cols = self.insert(0, [], None)
+            ops = [op]
+        elif x < 6:
             init = {"kind": "columns", "columns": cols}
             ops = []
             if n0:
@@ -1374,6 +1398,17 @@ class C17(Property):
             {"op": "insert", "t": 0, "shape": "dicts", "rows": [[], []]}, {"op": "insert", "t": 0, "shape": "dicts", "rows": [[["a", ["i", 1]]], []]}]})
         # a where on the (broken) view P8 returns: the repeated row numbers make View._try_slice take it for a slice
         cs.append(mk("ab", [[1, 4], [2, 0], [3, 2], [3, 2], [0, 2]], IX(0, "a"), W(0, a={"d": ["in", dict(L(3, 0, 3, 2), **{"as": "tuple"})]}), W(1, b=L(2))))
+        # tables created without columns; inserts that add several columns at once (dict rows, column mapping, ragged)
+        D = lambda *rows: {"op": "insert", "t": 0, "shape": "dicts", "rows": [[[c, V(v)["v"]] for c, v in r] for r in rows]}
+        C = lambda **cols: {"op": "insert", "t": 0, "shape": "cols", "cols": [[c, [V(v)["v"] for v in vs]] for c, vs in cols.items()]}
+        for bare in (True, False):
+            ini = {"kind": "columns", "columns": [], "bare": bare}
+            cs.append({"init": ini, "ops": [D([("a", 2), ("b", "x")], [("a", 1), ("b", "y")], [("a", 2), ("b", "y")]), W(0, b=V("y")), W(0, a=V(2)), IX(0, "b", "a"), W(0, b=V("y")),
+                                            {"op": "groupby", "t": 0, "level": 1, "select": "count"}]})
+            cs.append({"init": ini, "ops": [C(a=[2, 1, 2], b=["x", "y", "y"], c=[0.5, 0.25, 0.75]), IX(0, "b", "a"), W(0, b=V("y")), {"op": "groupby", "t": 0, "level": 1, "select": "count"}]})
+            cs.append({"init": ini, "ops": [D([("a", 1)], [("b", "x"), ("c", 3)], []), D([("d", 1), ("e", 2), ("a", 5)]), C(f=[7], b=["q"]), W(0, a=V(5))]})
+            cs.append({"init": ini, "ops": [D([("a", 1)], [("a", 2)]), D([("a", 3), ("b", "z")]), W(0, b=V("z"))]})
+        cs.append({"init": {"kind": "columns", "columns": ["a"]}, "ops": [D([("a", 1), ("b", "x"), ("c", 1)], [("a", 2), ("c", 2), ("d", "u")]), C(e=[1, 2], f=[3, 4], a=[7, 8]), W(0, d=V("u")), W(0, e=V(2))]})
         # the witnesses of the `_counterexample` theorems of Props/C17.lean, replayed on the real code
         exT = [[1, 5], [1, 6], [2, 5], ["M", 7]]
         cs.append(mk("ab", exT, IX(0, "a"), W(0, a=L(1, 1)), W(0, b={"d": ["!in", L(5)]}), W(0, a={"d": ["<", V(1)]}, b=V(6)),
